@@ -738,7 +738,29 @@ func genGif(r *hlib.Rand, i int) *fcase {
 	if err := gif.EncodeAll(&b, g); err != nil {
 		panic(err)
 	}
-	c := &fcase{format: "gif", file: b.Bytes(), truth: []string{kv("w", sz[0]), kv("h", sz[1]), kv("ncol", ncol), kv("n", nframes), kv("gct", gct), kv("lbits", lbits), kv("bg", g.BackgroundIndex), kv("loop", g.LoopCount)}}
+	file := b.Bytes()
+	// hand-made blocks without any sub-block (a lone terminator), inserted before the trailer: empty comment /
+	// application extensions and an image descriptor with empty data (all valid per the GIF89a grammar)
+	var extra []byte
+	xe := "~"
+	var jt []string
+	if i%5 == 2 || i%5 == 4 {
+		var codes []string
+		for _, code := range [][]byte{{0xfe}, {0xff}, {0xfe, 0xff}, {0x01}}[r.Intn(4)] {
+			extra = append(extra, 0x21, code, 0x00)
+			codes = append(codes, fmt.Sprint(code))
+		}
+		xe = strings.Join(codes, ",")
+	}
+	if i%5 == 4 {
+		x, y, w, h, cs := r.Intn(sz[0]), r.Intn(sz[1]), 1, 1, 2+r.Intn(7)
+		extra = append(extra, 0x2c, byte(x), 0, byte(y), 0, byte(w), 0, byte(h), 0, 0x00, byte(cs), 0x00)
+		jt = []string{"J", kv("x", x), kv("y", y), kv("w", w), kv("h", h), kv("cs", cs)}
+	}
+	if len(extra) > 0 && file[len(file)-1] == 0x3b {
+		file = append(append(append([]byte{}, file[:len(file)-1]...), extra...), 0x3b)
+	}
+	c := &fcase{format: "gif", file: file, truth: []string{kv("w", sz[0]), kv("h", sz[1]), kv("ncol", ncol), kv("n", nframes), kv("xe", xe), kv("gct", gct), kv("lbits", lbits), kv("bg", g.BackgroundIndex), kv("loop", g.LoopCount)}}
 	var palb []byte
 	for _, cl := range pal {
 		cr, cg, cb, _ := cl.RGBA()
@@ -749,7 +771,8 @@ func genGif(r *hlib.Rand, i int) *fcase {
 		bd := im.Bounds()
 		c.truth = append(c.truth, "I", kv("x", bd.Min.X), kv("y", bd.Min.Y), kv("w", bd.Dx()), kv("h", bd.Dy()), kv("delay", g.Delay[f]), kv("disp", g.Disposal[f]), kv("pix", hx(pix[f])))
 	}
-	c.class = fmt.Sprintf("gif.f%d.c%d.%dx%d.l%d.g%d", nframes, ncol, sz[0], sz[1], g.LoopCount, gct)
+	c.truth = append(c.truth, jt...)
+	c.class = fmt.Sprintf("gif.f%d.c%d.%dx%d.l%d.g%d.x%s.j%d", nframes, ncol, sz[0], sz[1], g.LoopCount, gct, xe, len(jt))
 	return c
 }
 
